@@ -59,9 +59,44 @@ class C03(core.Check):
                   [50, 48, 48, 48, 48, 48], [56], [55, 55]):
             c.append({'op': 'fromhex', 'd': d})
             c.append({'op': 'fromoct', 'd': d})
+        c += self.boundary_cases()
         c.append({'op': 'sweep', 'lo': -32768})
         c.append({'op': 'sweep', 'lo': 32704})
         c.append({'op': 'sweep', 'lo': -32})
+        return c
+
+    # every rounding / overflow boundary of the signed and unsigned 16-bit ranges
+    BOUNDARIES = [Fraction(65535, 2), 32768, Fraction(65537, 2), 32767, Fraction(-65535, 2), -32768,
+                  Fraction(-65537, 2), -32767, -32769, Fraction(131071, 2), 65536, 65535, -65536,
+                  Fraction(-131073, 2), Fraction(1, 2), Fraction(-1, 2), 0]
+    OFFSETS = [0, Fraction(1, 4), Fraction(-1, 4), Fraction(49, 100), Fraction(-49, 100), Fraction(1, 2),
+               Fraction(-1, 2), Fraction(3, 4), Fraction(-3, 4), 1, -1, Fraction(1, 1 << 30), Fraction(-1, 1 << 30)]
+
+    @classmethod
+    def boundary_values(cls, t):
+        """Encodings of size t on both sides of every boundary: fixed fractions within one unit of it
+        and the two adjacent representable values (witness class of seed C03f: -32768.25 etc.)."""
+        seen, out = set(), []
+        for b in cls.BOUNDARIES:
+            for d in cls.OFFSETS:
+                enc = M.float_encode(b + d, t)
+                cands = [enc] + (M.float_neighbours(enc) if enc[-1] and d == 0 else [])
+                for e in cands:
+                    if tuple(e) not in seen:
+                        seen.add(tuple(e))
+                        out.append(e)
+        return out
+
+    def boundary_cases(self):
+        c = []
+        for t in (4, 8):
+            for e in self.boundary_values(t):
+                x = M.float_value(e)
+                c.append({'op': 'cint', 'v': [t] + e})
+                if abs(abs(x) - 32768) <= 1:
+                    c.append({'op': 'mki', 'v': [t] + e})
+                if abs(x) > 65000 or x < -32000:
+                    c.append({'op': 'hex', 'v': [t] + e})
         return c
 
     def gen_cases(self, n):
@@ -78,7 +113,14 @@ class C03(core.Check):
             if r < 0.70:
                 op = rng.choice(['cint', 'fix', 'int', 'csng', 'csng', 'cdbl', 'mki', 'mks', 'mkd', 'hex', 'oct'])
                 types = (4, 8) if rng.random() < 0.85 else (2, 3)
-                if op in ('csng', 'mks') and rng.random() < 0.8:
+                if op in ('cint', 'mki', 'hex', 'oct', 'fix', 'int') and rng.random() < 0.35:
+                    t = rng.choice((4, 8))
+                    b = rng.choice(self.BOUNDARIES) + rng.choice(self.OFFSETS) * rng.choice([1, 1, Fraction(1, 3), Fraction(1, 1000)])
+                    enc = M.float_encode(b, t)
+                    if enc[-1] and rng.random() < 0.4:
+                        enc = rng.choice(M.float_neighbours(enc))
+                    add({'op': op, 'v': [t] + enc}, op + ':boundary')
+                elif op in ('csng', 'mks') and rng.random() < 0.8:
                     add({'op': op, 'v': [8] + self.narrow_case(rng)}, op + ':narrow')
                 else:
                     add({'op': op, 'v': M.rand_value(rng, types)})
